@@ -81,6 +81,13 @@ Definition conv_cons (c : CommitConsensus.cons) : CommitSM.cons :=
 Definition round_cons (F : Z) (dest : N) (aos : list CommitConsensus.aobs) : option CommitSM.cons :=
   match CommitConsensus.get_consensus F dest aos with Ok c => Some (conv_cons c) | _ => None end.
 
+(* the round function judged here is the one the liveness theorems of Props/C04.v are stated over
+   (Model/CommitLive.v, RMN remote config taken as empty) *)
+Require Verif.Model.CommitLive.
+Lemma round_cons_is_live_model F dest aos :
+  round_cons F dest aos = CommitLive.round_cons (fun _ => CommitSM.cfg_empty) F dest aos.
+Proof. reflexivity. Qed.
+
 (* input: F, dest, MaxReportTransmissionCheckAttempts, MaxMerkleTreeSize, previous outcome, retry flag, observations *)
 Definition rd_in := (Z * N * N * N * CommitSM.outcome * bool * list CommitConsensus.aobs)%type.
 Definition rd_model (i : rd_in) : CommitSM.outcome :=
